@@ -215,6 +215,21 @@ type Extra struct {
 	OnSQL     func(w *World, owner, kind, sql string)
 }
 
+// sources returns the source states in a fixed order (by name): iterating the
+// map directly would make log lines and draws depend on Go's map order.
+func (w *World) sources() []*srcState {
+	names := make([]string, 0, len(w.srcs))
+	for n := range w.srcs {
+		names = append(names, n)
+	}
+	sort.Strings(names)
+	out := make([]*srcState, 0, len(names))
+	for _, n := range names {
+		out = append(out, w.srcs[n])
+	}
+	return out
+}
+
 func (w *World) stat(k string, n int) {
 	w.mu.Lock()
 	w.stats[k] += n
@@ -539,7 +554,8 @@ func (w *World) startGeneration() error {
 	w.setup = true
 	defer func() { w.setup = false }()
 	nIG := len(p.Decls)
-	for name, ss := range w.srcs {
+	for _, ss := range w.sources() {
+		name := ss.plan.Name
 		poll := time.Duration(ss.plan.PollMs) * time.Millisecond
 		if poll <= 0 {
 			poll = time.Second
